@@ -79,3 +79,35 @@ Theorem C10_subset_count_orig_refuted :
     k <> Z.of_nat (length (nodup Z.eq_dec I)).
 Proof. exact subset_count_orig_refuted. Qed.
 Print Assumptions C10_subset_count_orig_refuted.
+
+(* ---- re-encoding the selected subsets ------------------------------------------------
+   The result of subset() is encoded again; for compressed data the columns are
+   re-packed over the selected subsets only (other minima, other increment widths,
+   other all-equal shortcuts).  Whatever value lists d the selection produced
+   (C10_subset_selects says which), the re-encoding decodes back to exactly the
+   (quantised) selected values, descriptors and links — the round-trip theorems of
+   C03/C05 instantiated at d, stated here because the property names this step. *)
+From PBK Require Import Bits Descr Walk Coder Decode Encode RoundTrip DecodeC EncodeC EncodeCG RoundTripC.
+Local Close Scope Z_scope.
+
+Theorem C10_reencode_selected_compressed : forall T (d : list (list value)) outs w g t,
+  encode_compressed_ghost T d = Ok (outs, w, g) ->
+  encode_compressed T d = Ok (outs, w) /\
+  decode_compressed T (length d) (w ++ t) = Ok (outs, g, t).
+Proof.
+  intros T d outs w g t E. split.
+  - eapply encode_compressed_ghost_is_encode; exact E.
+  - apply decode_encode_compressed; exact E.
+Qed.
+Print Assumptions C10_reencode_selected_compressed.
+
+Theorem C10_reencode_selected_uncompressed : forall T (d : list (list value)) outs w g t,
+  encode_ghost T d = Ok (outs, w, g) ->
+  encode_uncompressed T d = Ok (outs, w) /\
+  decode_uncompressed T (length d) (w ++ t) = Ok (outs, g, t).
+Proof.
+  intros T d outs w g t E. split.
+  - eapply encode_ghost_is_encode; exact E.
+  - apply decode_encode; exact E.
+Qed.
+Print Assumptions C10_reencode_selected_uncompressed.
